@@ -407,7 +407,7 @@ impl Prop for C10 {
     fn plan(&self, tier: Tier) -> Plan {
         let mut p = Plan::new(match tier {
             Tier::Quick => 30000,
-            Tier::Thorough => 50_000,
+            Tier::Thorough => 300_000,
         });
         p.workers = 12;
         p
